@@ -332,6 +332,15 @@ def run(ctx):
                 byval.setdefault(val, []).append(set(conds))
             for val, ds in byval.items():
                 pushes.append((blk, val, ds))
+        # `errors.extend(items.into_iter().map(|x| Error::..))`: one recorded error per item
+        for blk, t in ctx.find_calls(f, r"Extend<darling_core::error::Error>>::extend$"):
+            val = ctx.expr(f, t["args"][1])
+            for c in ctx._closures_deep(f):
+                if c.key in val:
+                    for v_ in ctx.ret_values(c):
+                        if "darling_core::error::Error::" in v_:
+                            val = v_
+            pushes.append((blk, val, [set(d) for d in ctx.pc_strs(f, blk)]))
 
         def has(*rx):
             return [p for p in pushes if p[2] and all(all(ctx._sat(d, r) for r in rx) for d in p[2])]
